@@ -484,11 +484,10 @@ class MaskSift(_Cached):
 
 def _pool_job(a, tdpath, delay):
     import time
-    t0 = time.monotonic_ns()
     if delay:
         _msk.jitter()
     with open(os.path.join(tdpath, '%d.log' % os.getpid()), 'a') as f:
-        f.write('%d %d\n' % (t0, a))
+        f.write('%d %d\n' % (time.monotonic_ns(), a))       # completion time: the order results become available
     return a * a + 1
 
 
